@@ -25,6 +25,8 @@ def matches(f, path, ty):
     return f['pc'] in path
   if 'any' in f:
     return any(matches(g, path, ty) for g in f['any'])
+  if 'seq' in f:
+    return any(matches(g, path, ty) for g in f['seq'])
   if 'not' in f:
     return not matches(f['not'], path, ty)
   if 'ellipsis' in f:
@@ -38,8 +40,11 @@ def gen_filter(rng):
     return {'type': rng.choice(['Param', 'BatchStat', 'Cache', 'Custom', 'Variable', 'Intermediate'])}
   if r < 0.75:
     return {'pc': rng.choice(NAMES + ['sub'])}
-  if r < 0.9:
+  if r < 0.85:
     return {'any': [{'type': rng.choice(['Param', 'Cache'])}, {'pc': rng.choice(NAMES)}]}
+  if r < 0.93:
+    # a sequence filter, as a list or as a tuple (both denote `any of`)
+    return {'seq': [{'type': rng.choice(['Param', 'Cache'])}, {'type': rng.choice(['BatchStat', 'Custom'])}][:rng.randint(1, 2)], 'kind': rng.choice(['list', 'tuple'])}
   return {'not': {'type': rng.choice(['Param', 'BatchStat'])}}
 
 
